@@ -55,7 +55,9 @@ var internalKeys = map[string]string{
 }
 
 func genHostile(rng *rand.Rand, thorough bool) hostile {
-	put := func(p *proto.PutRequest) *proto.WriteRequest { return &proto.WriteRequest{Puts: []*proto.PutRequest{p}} }
+	put := func(p *proto.PutRequest) *proto.WriteRequest {
+		return &proto.WriteRequest{Puts: []*proto.PutRequest{p}}
+	}
 	seq := func(key string, pk *string, deltas ...uint64) *proto.PutRequest {
 		return &proto.PutRequest{Key: key, Value: []byte("s"), PartitionKey: pk, SequenceKeyDelta: deltas}
 	}
